@@ -79,6 +79,10 @@ def check_instance(name, obj, ctx, S=None, C="auto"):
             raise Violation(f"C13|{name}|{m}|logdet_shape", f"log-det shape {np.shape(ld)} != ()")
         ctx.evaluated()
     n = 0
+    if ctx.evaluations % 5 == 0 or not ctx.samples:
+        ctx.sample({"instance": name, "shape": list(S), "cond_shape": None if C is None else list(C), "methods": usable,
+                    "wrong_x_shapes": [list(w) for w in wrong_shapes(S)],
+                    "wrong_condition_shapes": None if C is None else [list(w) for w in wrong_shapes(C)]})
     for m in usable:
         for W in wrong_shapes(S):
             ctx.evaluated()
@@ -330,6 +334,7 @@ def ctor_cases():
 
 def oracle_ctor(name, fn, ctx):
     ctx.evaluated()
+    ctx.sample({"constructor_case": name})
     expect_raises(f"C13|ctor|{name}", fn)
     ctx.mark_nontrivial(f"ctor|{name}")
 
